@@ -1,7 +1,7 @@
 (** C20 — every append completes within a bounded time.
-    The logic of the acknowledgement path (Model/SyncWatch.v: the worker's reply carries the
-    segment's watch channel and the target offset; sync and rollover publish the write offset;
-    the client polls the latest value of ITS channel) is proved free of lost wake-ups for EVERY
+    The logic of the acknowledgement path (Model/SyncWatch.v: the worker writes a transaction, may
+    sync, and replies with the segment's watch channel and the write offset as target; sync and
+    rollover publish the write offset; the client polls the latest value of ITS channel) is proved free of lost wake-ups for EVERY
     sequence of worker steps and polls, for the code as it is after fix 9690820 (one watch
     channel per segment, mode [PerSegment]).  The code before that fix (mode [Shared]) is refuted
     by two witnesses that are replayed on the real code (harness/cconc, kind=latepoll).
@@ -59,7 +59,7 @@ Theorem C20_shared_refuted :
   poll_ok (sw_run Shared shared_early) (next_waiter Shared [SWrite 1000; SReply; SSync; SRoll; SWrite 10]) = true /\
   (forall tail, Forall (fun st => st = SSync \/ exists w, st = SPoll w) tail ->
      poll_ok (sw_run Shared (shared_late ++ tail)) (next_waiter Shared []) = false).
-Proof. split; [exact shared_ack_before_sync|exact shared_lost_wakeup]. Qed.
+Proof. exact shared_refuted. Qed.
 
 (** Non-vacuity. *)
 (* the same two schedules are fine after the fix *)
